@@ -248,3 +248,81 @@ class Reach:
             hit = self.hit[label] & total
             ctx.counters[f"reach.{label}.lines_hit"] += len(hit)
             ctx.counters[f"reach.{label}.lines_total"] = max(ctx.counters[f"reach.{label}.lines_total"], len(total))
+
+
+def class_code_objects(cls, filename_suffix):
+    """code objects (nested ones included) of every function defined in a class body, also when already wrapped"""
+    out = []
+
+    def rec(c):
+        out.append(c)
+        for k in c.co_consts:
+            if isinstance(k, types.CodeType):
+                rec(k)
+
+    for _name, val in vars(cls).items():
+        fn = getattr(val, "__vf_original__", val)
+        fn = getattr(fn, "__func__", fn)
+        fn = getattr(fn, "__vf_original__", fn)
+        if isinstance(fn, types.FunctionType) and fn.__code__.co_filename.endswith(filename_suffix):
+            rec(fn.__code__)
+    return out
+
+
+class InjectedFault(BaseException):
+    """Raised by the fault injector at a statement boundary of the monitored code (like an asynchronous
+    KeyboardInterrupt / MemoryError arriving there)."""
+
+
+class FaultInjector:
+    """Source-free failpoints: a sys.monitoring LINE callback that raises InjectedFault at the k-th statement
+    executed inside the chosen code objects after arm(k)."""
+
+    TOOL = 5
+
+    def __init__(self, codes):
+        import dis
+
+        self.codes = codes
+        # Never inject on the line of a `with` statement: CPython re-visits that line when it leaves the block, just
+        # before calling __exit__, and an exception raised from a LINE callback there would skip __exit__ - a state
+        # no real exception can produce (the interpreter does not deliver asynchronous exceptions at that point).
+        self.skip = set()
+        for c in codes:
+            for ins in dis.get_instructions(c):
+                if ins.opname in ("BEFORE_WITH", "BEFORE_ASYNC_WITH") and ins.positions is not None:
+                    self.skip.add((c, ins.positions.lineno))
+        self.countdown = 0
+        self.armed = False
+        self.fired = 0
+        self.where = None
+        mon = sys.monitoring
+        mon.use_tool_id(self.TOOL, "vf-fault")
+        mon.register_callback(self.TOOL, mon.events.LINE, self._on_line)
+
+    def _on_line(self, code, line):
+        if self.armed and (code, line) not in self.skip:
+            self.countdown -= 1
+            if self.countdown <= 0:
+                self.armed = False
+                self.fired += 1
+                self.where = (code.co_name, line)
+                raise InjectedFault(f"injected at {code.co_name}:{line}")
+
+    def arm(self, k):
+        self.countdown, self.armed, self.where = k, True, None
+        mon = sys.monitoring
+        for c in self.codes:
+            mon.set_local_events(self.TOOL, c, mon.events.LINE)
+
+    def disarm(self):
+        self.armed = False
+        mon = sys.monitoring
+        for c in self.codes:
+            mon.set_local_events(self.TOOL, c, 0)
+
+    def close(self):
+        self.disarm()
+        mon = sys.monitoring
+        mon.register_callback(self.TOOL, mon.events.LINE, None)
+        mon.free_tool_id(self.TOOL)
